@@ -238,6 +238,39 @@ inductive PanicKind where
   | overflow | divByZero | outOfBounds
 deriving DecidableEq, Repr, Inhabited
 
+/-! ### array access (`ExprEnum::ArrayAccess`, `StmtEnum::VarAssign`) -/
+
+/-- one layer of the mux tree of an array read: neighbouring elements are paired and the index bit `s` selects one
+of each pair; an element without a partner is paired with constant ones -/
+def muxLayer (s : Bool) : List (List Bool) → List (List Bool)
+  | [] => []
+  | [a0] => [a0.map fun b => mux s true b]
+  | a0 :: a1 :: rest => List.zipWith (fun x0 x1 => mux s x1 x0) a0 a1 :: muxLayer s rest
+
+/-- the whole tree: one layer per index bit, from the least significant bit upward; what is left is one element -/
+def indexMux (idx : List Bool) (elems : List (List Bool)) : List (List Bool) :=
+  idx.reverse.foldl (fun arr s => muxLayer s arr) elems
+
+/-- what is left after the last layer (zeros for an array without elements) -/
+def selected (sz : Nat) : List (List Bool) → List Bool
+  | el :: _ => el
+  | [] => List.replicate sz false
+
+/-- the low `size` bits of `n`, most significant first (the compile-time number of an array element) -/
+def bitsOf (n : Nat) : Nat → List Bool
+  | 0 => []
+  | size + 1 => (n / 2 ^ size % 2 == 1) :: bitsOf n size
+
+/-- one wire of element `i` after an array write: a chain of muxes over the index bits keeps the new wire `v` only
+if every bit of the index equals the corresponding bit of `i` -/
+def writeBit (idx : List Bool) (i : Nat) (old v : Bool) : Bool :=
+  (idx.zip (bitsOf i idx.length)).foldl (fun x1 ab => mux (if ab.2 then !ab.1 else ab.1) old x1) v
+
+/-- all elements after a write of `sub` at the index: element `i`, `i + 1`, … -/
+def writeAll (idx : List Bool) (sub : List Bool) : Nat → List (List Bool) → List (List Bool)
+  | _, [] => []
+  | i, old :: rest => List.zipWith (writeBit idx i) old sub :: writeAll idx sub (i + 1) rest
+
 /-- `ExprEnum::Op(op, x, y)` on the operand bits (after compiling both operands): result bits and
 the condition/kind of the panic the operator may raise. `sx`/`sy`/`sr`: signedness of the operand
 types and of the result type. -/
